@@ -108,6 +108,39 @@ def oracle(case, res, extra):
         lv = q.get("local_variables")
         if lv and len(lv) > 1:
             res.stats["local_variable_orders"] += 1
+    # ---- the same at the level of bartiq's own `Routine` objects (qref's validators sort several lists of a document, so a
+    # permuted document never shows bartiq a permuted port/resource/connection order; a Routine object does)
+    if case.status == "ok":
+        import dataclasses
+
+        from bartiq import Routine, compile_routine
+
+        from ..real import schema, sympy_backend as B_
+
+        def shuffled(r):
+            def sh(d):
+                items = list(d.items())
+                rng.shuffle(items)
+                return dict(items)
+            kids = {k: shuffled(v) for k, v in r.children.items()}
+            lp = {k: tuple(rng.sample(list(v), len(v))) for k, v in sh(r.linked_params).items()}
+            return dataclasses.replace(r, ports=sh(r.ports), resources=sh(r.resources), connections=sh(r.connections),
+                                       local_variables=sh(r.local_variables), linked_params=lp, children=kids,
+                                       input_params=tuple(rng.sample(list(r.input_params), len(list(r.input_params)))))
+        try:
+            ro = Routine.from_qref(schema(q), B_)
+            r_obj = compile_routine(shuffled(ro)).routine
+        except Exception as e:
+            res.violation("failing-input", f"compiling the Routine object with its dictionaries listed in another order raises {type(e).__name__}",
+                          {"qref": q, "route": "Routine object, shuffled ports/resources/connections/local_variables/linked_params"}, str(e)[:200], "same result")
+            return
+        res.stats["routine_object_permutations"] += 1
+        diffs = compare.trees_equal_real(case.result.routine, r_obj, rng, None, constraints=True)
+        if diffs:
+            res.violation("failing-input", f"listing the fields of the Routine object in another order changes the compiled result: {diffs[0][:2]}",
+                          {"qref": q, "route": "Routine object, shuffled ports/resources/connections/local_variables/linked_params"},
+                          [str(x)[:200] for x in diffs[0]], "equal resources, port sizes and constraints")
+            return
     if case.seed % 67 == 0:
         res.samples.append({"qref": q})
 
